@@ -309,6 +309,61 @@ def _opsig(s):
     return ",".join(toks[:3]) or "atom"
 
 
+MACROS = {"M": "a+b", "N": "M*M if c else d", "K": "f(M, k=N)", "P": "-a**2"}
+
+
+def _macro_parser():
+    from pymbolic.parser import Parser
+
+    class MacroParser(Parser):
+        """expands macro names by calling THIS parser object again, in the middle of a parse
+        (parse_terminal is the documented hook for new terminals)"""
+
+        def parse_terminal(self, pstate):
+            if (not pstate.is_at_end() and pstate.next_tag() == "identifier"
+                    and pstate.next_str() in MACROS):
+                return self(MACROS[pstate.next_str_and_advance()])
+            return super().parse_terminal(pstate)
+    return MacroParser()
+
+
+def _written_out(s):
+    import re
+    for _ in range(3):
+        s = re.sub(r"\b(" + "|".join(MACROS) + r")\b", lambda m: "(" + MACROS[m.group(1)] + ")", s)
+    return s
+
+
+@check("C07.reentrant")
+def c_reentrant(ctx, case):
+    """The parser re-entered while it is running (a derived parser whose terminal hook parses a
+    macro body with the same object): the outer parse still consumes its whole input or raises,
+    and gives the tree of the written-out text."""
+    (s,) = case
+    ctx.case(None)
+    ctx.count("reentrant_parses")
+    mp = _macro_parser()
+    flat = _written_out(s)
+
+    def run(fn, text):
+        try:
+            return ("v", fn(text))
+        except PARSE_ERRORS as ex:
+            return ("refused", type(ex).__name__)
+        except RecursionError:
+            raise
+        except Exception as ex:  # noqa: BLE001
+            return ("exc", type(ex).__name__)
+    want, got = run(parse, flat), run(mp, s)
+    again = run(mp, s)
+    for g, which in ((got, "first call"), (again, "second call on the same parser")):
+        if g[0] != want[0] or (g[0] == "v" and not normal.typed_eq(g[1], want[1])):
+            ctx.fail("C07.reentrant", case, f"reentrant:{want[0]}->{g[0]}",
+                     f"{s!r} with macros {MACROS} expanded by re-entering the parser ({which}): "
+                     f"{short(g)}; the written-out text {flat!r} gives {short(want)}")
+            return
+
+
 @check("C07.garbage")
 def c_garbage(ctx, case):
     (s,) = case
@@ -634,6 +689,50 @@ def workload(ctx):
                     ctx.case(("s", s), True, n=0)
                     ctx.count("repeated_operand_strings")
                     ctx.run("C07.string", (s, ctx.seed))
+        # trailing commas wherever Python allows one (calls with and without keywords, tuples,
+        # subscripts), and where it does not
+        for s in ["f(k=a,)", "f(a, k=b,)", "f(a, b, k=c, j=a+b,)", "f(a,)", "f(a, b,)", "(a, b,)", "(a,)",
+                  "m[a, b,]", "m[a,]", "f((a,),)", "f(k=(a,),)", "g(f(k=a,), b,)", "m[f(a, k=b,), c]",
+                  "f(a, k=b,) + g(k=c,)", "f(*a,)" if False else "f(a, b, k=a,)", "m[a:b,]", "m[(a,),]"]:
+            if ctx.mine("trailing-commas"):
+                ctx.case(("s", s), True, n=0)
+                ctx.count("trailing_comma_strings")
+                ctx.run("C07.string", (s, ctx.seed))
+        for s in ["f(k=a,,)", "f(,)", "f(k=a, b)", "f(a,, b)", "(,)", "m[,]", "f(k=a,) b", "f(k=,)"]:
+            if ctx.mine("trailing-commas"):
+                ctx.run("C07.garbage", (s,))
+        # depth: every operator applied to its own kind, 3 .. 8 times, on either side; prefix
+        # towers; brackets in brackets; calls / subscripts / conditionals inside each other
+        for depth in (3, 4, 5, 6, 8):
+            names = "abcdabcdab"
+            tow = []
+            for op in BIN:
+                if op == "**" and depth > 4:
+                    continue
+                tow.append(f" {op} ".join(names[:depth + 1]))
+                t = "a"
+                for i in range(depth):
+                    t = f"({names[i + 1]} {op} {t})" if i % 2 else f"({t} {op} {names[i + 1]})"
+                tow.append(t)
+            for u in ("-", "+", "~", "not ", "- ", "-+", "~-"):
+                tow.append(u * depth + "a")
+                tow.append("b * " + u * depth + "a" if u != "not " else "b and " + u * depth + "a")
+            tow += ["(" * depth + "a + b" + ")" * depth + " * c", "f(" * depth + "a" + ")" * depth,
+                    "m[" * depth + "1" + "]" * depth, "m" + "[1]" * depth, "f" + "(a)" * depth,
+                    " if c else ".join(names[:depth + 1]), "a" + " if (b" * depth + " if c else d) else a" * depth,
+                    " < ".join(names[:depth + 1]), "a" + ".b" * depth, " and ".join(names[:depth + 1]),
+                    " or ".join(f"{x} and not {x}" for x in names[:depth])]
+            for s in tow:
+                if ctx.mine("towers"):
+                    ctx.case(("s", s), True, n=0)
+                    ctx.count("tower_strings")
+                    ctx.run("C07.string", (s, ctx.seed))
+        for s in ["M", "M*2", "f(M, k=M)", "m[M][N]", "N if M < 3 else -M", "K + M", "P*P", "2**P", "M**M",
+                  "(M)", "f(N)", "M c", "M)", "f(M) g", "m[M] ]", "N else 3", "(M", "M 2", "M +", "f(M,, M)",
+                  "K 1", "M, N", "M if N", "a b", "(a+b) c", "f(a+b) 1", "K)", "[M", "P c"]:
+            if ctx.mine("reentrant"):
+                ctx.case(("reentrant", s), True, n=0)
+                ctx.run("C07.reentrant", (s,))
         for s in GARBAGE:
             if ctx.mine("garbage"):
                 ctx.case(("g", s), True, n=0)
@@ -664,6 +763,9 @@ def workload(ctx):
         for k, v in tr.handlers("parse").items():
             ctx.count("handler:" + k, v)
     ctx.floor("respelled:dense", 500)
+    ctx.floor("reentrant_parses", 25)
+    ctx.floor("tower_strings", 200)
+    ctx.floor("trailing_comma_strings", 15)
     ctx.floor("importer_ast_with_shared_nodes", 300)
     ctx.floor("respelled:wide", 500)
     ctx.floor("rejected_between_valid", 500)
